@@ -14,8 +14,9 @@
 (*                            constants, nested/qualified types, enum      *)
 (*                            defaults, std::string parameters             *)
 (* Valid(row) is the tool's own exclusion (interrogate.cxx refuses -fnames *)
-(* with -true-names) and the documented one (-do-module "prohibits         *)
-(* grouping several libraries together into a single module").             *)
+(* with -true-names), the documented one (-do-module "prohibits grouping   *)
+(* several libraries together into a single module") and the one           *)
+(* combination that needs a class from outside the inputs.                 *)
 (*                                                                         *)
 (* The product has 3*3*2^9*2^7 = 589 824 points.  The behaviour of this    *)
 (* spec is a COVERING ARRAY of strength T (2 = pairwise): every step adds  *)
@@ -29,7 +30,8 @@
 EXTENDS Naturals, Sequences, FiniteSets, FiniteSetsExt, TLC
 
 CONSTANTS T,         \* strength of the covering array
-          MaxRows    \* safety bound (never reached: termination is proved by running)
+          MaxRows,   \* safety bound (never reached: termination is proved by running)
+          Variants   \* one covering array is built per variant (they differ in how ties are broken)
 
 Factors == << [n |-> "backend",      v |-> 3],   \* 1 -c, 2 -python, 3 -python-native
               [n |-> "naming",       v |-> 3],   \* 1 -fnames, 2 -fptrs, 3 neither
@@ -52,9 +54,13 @@ Factors == << [n |-> "backend",      v |-> 3],   \* 1 -c, 2 -python, 3 -python-n
 NF == Len(Factors)
 FV == {<<f, v>> : f \in 1..NF, v \in 1..3} \cap {p \in (1..NF) \X (1..3) : p[2] <= Factors[p[1]].v}
 
-\* excluded pairs of (factor, value)
+\* excluded combinations of (factor, value)
 Excluded == { {<<2, 1>>, <<4, 2>>},      \* -fnames with -true-names: rejected by interrogate
-              {<<7, 2>>, <<11, 2>>} }    \* -do-module with several libraries per module
+              {<<7, 2>>, <<11, 2>>},     \* -do-module with several libraries per module
+              \* -python-native without -string wraps std::string as a CLASS that some other module
+              \* must provide (it is imported at module initialisation): such a module cannot
+              \* initialise on its own -- it depends on a runtime that is not part of the inputs
+              {<<1, 3>>, <<3, 1>>, <<18, 2>>} }
 NoExcluded(S) == \A e \in Excluded : ~(e \subseteq S)
 
 \* the valid T-tuples: T (factor, value) pairs on distinct factors containing no excluded pair
@@ -64,11 +70,12 @@ Tuples == {ts \in kSubset(T, FV) : /\ \A p, q \in ts : p # q => p[1] # q[1]
 RowSet(row) == {<<f, row[f]>> : f \in DOMAIN row}
 Valid(row) == DOMAIN row = 1..NF /\ (\A f \in 1..NF : row[f] \in 1..Factors[f].v) /\ NoExcluded(RowSet(row))
 
-VARIABLES rows,     \* number of rows so far
+VARIABLES variant,  \* which array this behaviour builds
+          rows,     \* number of rows so far
           row,      \* the row added by the last step (<<>> initially)
           unc       \* T-tuples not yet covered
 
-vars == <<rows, row, unc>>
+vars == <<variant, rows, row, unc>>
 
 \* tuples of U that (f, v) would complete, given the partial row r
 Gain(r, f, v, U) ==
@@ -81,23 +88,28 @@ Fill(r, f, U, n) ==
   ELSE IF f \in DOMAIN r THEN Fill(r, f + 1, U, n)
   ELSE LET cand == {v \in 1..Factors[f].v : NoExcluded(RowSet(r) \cup {<<f, v>>})}
            g == [v \in cand |-> Gain(r, f, v, U)]
-           \* ties alternate between the lowest and the highest value so that rows differ
+           \* ties are broken by a preference that rotates with the row number n (= rows + variant),
+           \* so that rows -- and the arrays of different variants -- differ
+           pref == [v \in cand |-> (v + n) % Factors[f].v]
            best == CHOOSE v \in cand : \A w \in cand :
                      \/ g[v] > g[w]
-                     \/ g[v] = g[w] /\ (IF n % 2 = 0 THEN v <= w ELSE v >= w)
+                     \/ g[v] = g[w] /\ (pref[v] < pref[w] \/ (pref[v] = pref[w] /\ v <= w))
        IN Fill(r @@ (f :> best), f + 1, U, n)
 
-Seed(U) == CHOOSE ts \in U : TRUE
+\* the uncovered tuple a row is seeded with: a variant-dependent but fixed choice
+Score(ts, k) == FoldSet(LAMBDA p, acc : acc + ((p[1] * 7 + p[2] * 3 + k * (p[1] + 5)) % 11), 0, ts)
+Seed(U, k) == LET m == Max({Score(ts, k) : ts \in U}) IN CHOOSE ts \in U : Score(ts, k) = m
 SeedRow(ts) == [f \in {p[1] : p \in ts} |-> (CHOOSE p \in ts : p[1] = f)[2]]
 
 Covered(r) == {ts \in unc : ts \subseteq RowSet(r)}
 
-Init == rows = 0 /\ row = <<>> /\ unc = Tuples
+Init == variant \in Variants /\ rows = 0 /\ row = <<>> /\ unc = Tuples
 
 AddRow == /\ unc # {} /\ rows < MaxRows
-          /\ row' = Fill(SeedRow(Seed(unc)), 1, unc, rows)
+          /\ row' = Fill(SeedRow(Seed(unc, variant)), 1, unc, rows + variant)
           /\ unc' = unc \ Covered(row')
           /\ rows' = rows + 1
+          /\ UNCHANGED variant
 
 Next == AddRow
 Spec == Init /\ [][Next]_vars
